@@ -12,13 +12,12 @@
      positions, capture registers and continuations; hence the same FindStringSubmatchIndex vector.
    * for every defect class a refutation with a concrete (tree, subject) witness, by vm_compute.
 
-   WHAT IS MISSING for the unconditional `go_accepts e -> avoids_defects e -> simp e ≈ e` with a purely
-   syntactic avoids_defects:  the structural induction over [walk_a] (nested fixpoints over argument lists
-   with the flag / capture-index state of [den] threaded through) that would show that [certified] holds for
-   every tree avoiding the guards of the per-rule lemmas.  [certified] is instead evaluated by the kernel on
-   every case of the tie (and must be false wherever the oracle found a difference).
-   Also not a theorem: that Go's regexp parses the TEXT of the rewrite to the tree [simp_ast] (the re-lexing
-   defects live there); the tie checks it per case by certifying den(simp_ast e) against den(parse(text)). *)
+   STATUS OF THE GAP named in the first version of this file: the induction over [walk_a] now exists for the
+   capture-free, flag-free fragment (Proofs_RegexWalk.walk_sound / simplify_sound_fragment), with syntactic
+   guards.  [certified] remains the route for trees with captures or flags and for prefix/suffix factoring.
+   Still not a theorem: that Go's regexp parses the TEXT of the rewrite to the tree [simp_ast] (the re-lexing
+   defects live there); the tie checks it per case by certifying den(pattern tree) against den(parse(final text)).
+   The *_prefix_refuted lemmas are about the simplifier before the fix commits (walk false). *)
 From GC Require Import Base Model_Regex Model_RegexSimplify Proofs_Regex Proofs_RegexRules.
 Local Open Scope nat_scope.
 
@@ -359,26 +358,26 @@ Proof. split; [vm_compute; reflexivity|vm_compute; discriminate]. Qed.
 (* 4. (a){0}b => b : a capture group disappears *)
 Definition t_zero_cap :=
   X OpConcat "(a){0}b" [X OpRepeat "(a){0}" [X OpCapture "(a)" [X OpChar "a" []]; X OpString "{0}" []]; X OpChar "b" []].
-Lemma capture_under_zero_repeat_refuted :
-  simp_text t_zero_cap = "b" /\
+Lemma capture_under_zero_repeat_prefix_refuted :
+  simp_text_prefix t_zero_cap = "b" /\
   option_map (fun x => snd (fst x)) (den_top t_zero_cap) = Some 1 /\
-  option_map (fun x => snd (fst x)) (den_top (simp_ast t_zero_cap)) = Some 0.
+  option_map (fun x => snd (fst x)) (den_top (simp_ast_prefix t_zero_cap)) = Some 0.
 Proof. split; [|split]; vm_compute; reflexivity. Qed.
 
 (* 5. (?:(a))(?:(a)) => (?:(a)){2} and (?:(a))(?:(a))* => (?:(a))+ : two groups become one *)
 Definition t_gcap := X OpGroup "(?:(a))" [X OpCapture "(a)" [X OpChar "a" []]].
 Definition t_fold_cap := X OpConcat "(?:(a))(?:(a))" [t_gcap; t_gcap].
-Lemma capture_in_folded_group_refuted :
-  simp_text t_fold_cap = "(?:(a)){2}" /\
+Lemma capture_in_folded_group_prefix_refuted :
+  simp_text_prefix t_fold_cap = "(?:(a)){2}" /\
   option_map (fun x => snd (fst x)) (den_top t_fold_cap) = Some 2 /\
-  option_map (fun x => snd (fst x)) (den_top (simp_ast t_fold_cap)) = Some 1.
+  option_map (fun x => snd (fst x)) (den_top (simp_ast_prefix t_fold_cap)) = Some 1.
 Proof. split; [|split]; vm_compute; reflexivity. Qed.
 
 Definition t_merge_cap := X OpConcat "(?:(a))(?:(a))*" [t_gcap; X OpStar "(?:(a))*" [t_gcap]].
-Lemma capture_in_merged_group_refuted :
-  simp_text t_merge_cap = "(?:(a))+" /\
+Lemma capture_in_merged_group_prefix_refuted :
+  simp_text_prefix t_merge_cap = "(?:(a))+" /\
   option_map (fun x => snd (fst x)) (den_top t_merge_cap) = Some 2 /\
-  option_map (fun x => snd (fst x)) (den_top (simp_ast t_merge_cap)) = Some 1.
+  option_map (fun x => snd (fst x)) (den_top (simp_ast_prefix t_merge_cap)) = Some 1.
 Proof. split; [|split]; vm_compute; reflexivity. Qed.
 
 (* 6. "xx-star => x-plus" when x can match the empty string; x = non-capturing group of s-star-nongreedy b-star, subject "bs" *)
@@ -393,8 +392,8 @@ Proof. split; [vm_compute; reflexivity|vm_compute; discriminate]. Qed.
 (* 7. (?i:a)[b] => (i:a)b : the group with flags is printed without "?" *)
 Definition t_flag_group :=
   X OpConcat "(?i:a)[b]" [X OpGroupWithFlags "(?i:a)" [X OpChar "a" []; X OpString "i" []]; X OpCharClass "[b]" [X OpChar "b" []]].
-Lemma flag_group_loses_question_mark_refuted :
-  simp_text t_flag_group = "(i:a)b" /\ differ t_flag_group (simp_ast t_flag_group) "ab".
+Lemma flag_group_loses_question_mark_prefix_refuted :
+  simp_text_prefix t_flag_group = "(i:a)b" /\ differ t_flag_group (simp_ast_prefix t_flag_group) "ab".
 Proof. split; [vm_compute; reflexivity|vm_compute; discriminate]. Qed.
 
 (* The remaining classes are about the TEXT: the tree below named *_after is the real parser's tree of the
@@ -404,30 +403,38 @@ Proof. split; [vm_compute; reflexivity|vm_compute; discriminate]. Qed.
 Definition t_ng := X OpConcat "a{1}?b"
   [X OpNonGreedy "a{1}?" [X OpRepeat "a{1}" [X OpChar "a" []; X OpString "{1}" []]]; X OpChar "b" []].
 Definition t_ng_after := X OpConcat "a?b" [X OpQuestion "a?" [X OpChar "a" []]; X OpChar "b" []].
-Lemma nongreedy_over_dropped_repeat_refuted :
-  simp_text t_ng = "a?b" /\ print t_ng_after = "a?b" /\ differ t_ng t_ng_after "b".
+Lemma nongreedy_over_dropped_repeat_prefix_refuted :
+  simp_text_prefix t_ng = "a?b" /\ print t_ng_after = "a?b" /\ differ t_ng t_ng_after "b".
 Proof. split; [|split]; [vm_compute; reflexivity|vm_compute; reflexivity|vm_compute; discriminate]. Qed.
 
 (* 9. a|-|c => [a-c] *)
 Definition t_dash := X OpAlt "a|-|c" [X OpChar "a" []; X OpChar "-" []; X OpChar "c" []].
 Definition t_dash_after := X OpCharClass "[a-c]" [X OpCharRange "a-c" [X OpChar "a" []; X OpChar "c" []]].
-Lemma alt_to_class_dash_refuted :
-  simp_text t_dash = "[a-c]" /\ print t_dash_after = "[a-c]" /\ differ t_dash t_dash_after "-".
+Lemma alt_to_class_dash_prefix_refuted :
+  simp_text_prefix t_dash = "[a-c]" /\ print t_dash_after = "[a-c]" /\ differ t_dash t_dash_after "-".
 Proof. split; [|split]; [vm_compute; reflexivity|vm_compute; reflexivity|vm_compute; discriminate]. Qed.
 
 (* 10. a|] => [a]] *)
 Definition t_brk := X OpAlt "a|]" [X OpChar "a" []; X OpChar "]" []].
 Definition t_brk_after := X OpConcat "[a]]" [X OpCharClass "[a]" [X OpChar "a" []]; X OpChar "]" []].
-Lemma alt_to_class_bracket_refuted :
-  simp_text t_brk = "[a]]" /\ print t_brk_after = "[a]]" /\ differ t_brk t_brk_after "a".
+Lemma alt_to_class_bracket_prefix_refuted :
+  simp_text_prefix t_brk = "[a]]" /\ print t_brk_after = "[a]]" /\ differ t_brk t_brk_after "a".
 Proof. split; [|split]; [vm_compute; reflexivity|vm_compute; reflexivity|vm_compute; discriminate]. Qed.
 
 (* 11. a[{]1} => a{1} *)
 Definition t_unwrap := X OpConcat "a[{]1}"
   [X OpChar "a" []; X OpCharClass "[{]" [X OpChar "{" []]; X OpChar "1" []; X OpChar "}" []].
 Definition t_unwrap_after := X OpRepeat "a{1}" [X OpChar "a" []; X OpString "{1}" []].
+Lemma unwrap_class_creates_repeat_prefix_refuted :
+  simp_text_prefix t_unwrap = "a{1}" /\ print t_unwrap_after = "a{1}" /\ differ t_unwrap t_unwrap_after "a".
+Proof. split; [|split]; [vm_compute; reflexivity|vm_compute; reflexivity|vm_compute; discriminate]. Qed.
+
+(* 11b. still open after the fixes: a(?:{)2} => a{2} (group unwrapping) *)
+Definition t_unwrap_g := X OpConcat "a(?:{)2}"
+  [X OpChar "a" []; X OpGroup "(?:{)" [X OpChar "{" []]; X OpChar "2" []; X OpChar "}" []].
+Definition t_unwrap_g_after := X OpRepeat "a{2}" [X OpChar "a" []; X OpString "{2}" []].
 Lemma unwrap_creates_repeat_refuted :
-  simp_text t_unwrap = "a{1}" /\ print t_unwrap_after = "a{1}" /\ differ t_unwrap t_unwrap_after "a".
+  simp_text t_unwrap_g = "a{2}" /\ print t_unwrap_g_after = "a{2}" /\ differ t_unwrap_g t_unwrap_g_after "aa".
 Proof. split; [|split]; [vm_compute; reflexivity|vm_compute; reflexivity|vm_compute; discriminate]. Qed.
 
 (* 12. a{1\,2} => a{1,2} *)
@@ -450,8 +457,15 @@ Proof. split; [|split]; [vm_compute; reflexivity|vm_compute; reflexivity|vm_comp
 (* 14. [+--x] => [+,-x] *)
 Definition t_rng := X OpCharClass "[+--x]" [X OpCharRange "+--" [X OpChar "+" []; X OpChar "-" []]; X OpChar "x" []].
 Definition t_rng_after := X OpCharClass "[+,-x]" [X OpChar "+" []; X OpCharRange ",-x" [X OpChar "," []; X OpChar "x" []]].
+Lemma range_enumeration_dash_bound_prefix_refuted :
+  simp_text_prefix t_rng = "[+,-x]" /\ print t_rng_after = "[+,-x]" /\ differ t_rng t_rng_after "[".
+Proof. split; [|split]; [vm_compute; reflexivity|vm_compute; reflexivity|vm_compute; discriminate]. Qed.
+
+(* 14b. still open after the fixes: [a-b-x] => [ab-x] (the enumerated range is FOLLOWED by a dash) *)
+Definition t_rng2 := X OpCharClass "[a-b-x]" [X OpCharRange "a-b" [X OpChar "a" []; X OpChar "b" []]; X OpChar "-" []; X OpChar "x" []].
+Definition t_rng2_after := X OpCharClass "[ab-x]" [X OpChar "a" []; X OpCharRange "b-x" [X OpChar "b" []; X OpChar "x" []]].
 Lemma range_enumeration_creates_range_refuted :
-  simp_text t_rng = "[+,-x]" /\ print t_rng_after = "[+,-x]" /\ differ t_rng t_rng_after "[".
+  simp_text t_rng2 = "[ab-x]" /\ print t_rng2_after = "[ab-x]" /\ differ t_rng2 t_rng2_after "c".
 Proof. split; [|split]; [vm_compute; reflexivity|vm_compute; reflexivity|vm_compute; discriminate]. Qed.
 
 (* 15. \0(?:1) => \01 *)
@@ -464,5 +478,5 @@ Proof. split; [|split]; [vm_compute; reflexivity|vm_compute; reflexivity|vm_comp
 (* 16. (|a) => (|?) : the parser gives the empty branch the Value "|"; the emitted text has no parse at all
        (regexp.Compile rejects it: the oracle's witness); here: the text *)
 Definition t_empty_branch := X OpCapture "(|a)" [X OpAlt "|" [X OpConcat "|" []; X OpChar "a" []]].
-Lemma empty_alt_branch_factored_refuted : simp_text t_empty_branch = "(|?)".
+Lemma empty_alt_branch_factored_prefix_refuted : simp_text_prefix t_empty_branch = "(|?)".
 Proof. vm_compute. reflexivity. Qed.
